@@ -1,6 +1,7 @@
 """C14 — RingBuffer is an unbounded, linearizable FIFO queue."""
 import itertools
 from ..driver import Part
+from . import c14_conc
 from .. import common as C
 
 COQ_FILES = ["Ring.v", "RingProofs.v", "RingExec.v", "PropsRing.v"]
@@ -127,4 +128,10 @@ class Seq(Part):
         return d
 
 
-PARTS = [Seq()]
+PARTS = [Seq(), c14_conc.Conc()]
+build = c14_conc.build
+COQ_FILES = COQ_FILES + c14_conc.COQ_FILES
+THEOREMS = THEOREMS + c14_conc.THEOREMS
+TRUSTED_BASE = TRUSTED_BASE + c14_conc.TRUSTED_BASE
+ASSUMPTIONS = ASSUMPTIONS + c14_conc.ASSUMPTIONS
+RULE = RULE + "; " + c14_conc.RULE_CONC
